@@ -1343,6 +1343,9 @@ impl ReceiverInner<ReceiverLink<Target>> {
         is_reattaching: bool,
     ) -> Result<ReceiverAttachExchange, ReceiverResumeErrorKind> {
         self.reallocate_output_handle().await?;
+        // The link's incoming channel has just been replaced: deliveries that were still waiting
+        // in the old one are gone with it and must no longer be counted as waiting
+        self.link.flow_state.reset_unconsumed();
 
         let exchange = match initial_remote_attach.take() {
             Some(remote_attach) => {
